@@ -125,13 +125,19 @@ fn main() {
     run.rule(
         "level-synchronous search over histories: every kept history x every op of the alphabet \
          {insert, remove (3 ids x 4 keys a,b,c,48-byte key), insert_array, remove_array (4 arrays incl. duplicate + empty), \
-         batch_update (4 old/new pairs), compact_buckets, flush, flush+load_all}; each candidate is re-executed from scratch on a \
-         fresh real index (64-byte buckets); checked after the last op: return value / uniqueness error vs model, light battery \
-         (len, stats, keys(cursor,limit) for all cursors x limits, query_with per key incl. absent, full scans both directions, \
-         prefix_query_with with every stop position), then flush + load_all + the same battery; dedup key = (model, committed model, \
-         public flags, canonical durable objects, canonical objects written by the probe flush); distinct = distinct dedup keys \
-         other than the initial state | deep battery = every RangeQuery tree to the tier's depth, both directions, callback stopping \
-         at every position, once per distinct model state on a re-executed representative history",
+         batch_update (4 old/new pairs), compact_buckets, flush, flush+load_all}; plus a focused alphabet (grow/shrink the long \
+         key's posting until it migrates) to depth 8/12 and start states in the legacy manifest-less layout; each candidate is \
+         re-executed from scratch on a fresh real index (64-byte buckets); checked after the last op: return value / uniqueness \
+         error vs model, light battery (len, is_empty, stats.num_elements, keys(None,None), query_with per key incl. absent keys, \
+         three full scans in both directions with and without early stop, one bounded page), then flush + load_all + the same \
+         battery on the loaded index; dedup key = (model, committed model, public flags, canonical durable objects, canonical objects \
+         written by the probe flush); distinct = distinct dedup keys other than the initial state | deep battery, once per distinct \
+         model state on a re-executed representative history: keys(cursor, limit) for every cursor (incl. absent) x every limit, \
+         prefix_query_with for 9 prefixes x every stop position (String keys), and every RangeQuery tree of the tier's battery \
+         (quick: all trees to depth 2 over 17 leaves, plus the 50 leaves of the thorough set; thorough: all trees to depth 2 over 50 leaves \
+         [Eq/Gt/Ge/Lt/Le over 7 constants, Between incl. inverted/point/absent, Include incl. empty/duplicate/unsorted] and all trees \
+         of depth 3 [Not, binary And, binary Or over every depth<=2 tree] over 8 leaves), each in both directions with the callback \
+         stopping at every position",
     );
     run.assume("range/prefix query evaluation reads only the key set and the postings (code reading: range_query_inner/range_keys), so the tree battery is run once per distinct model state, not once per history");
     run.assume("dedup key does not see in-memory bucket size estimates, dirty_version/posting version counters or posting id order; a no-dedup run to a smaller depth cross-checks it");
